@@ -120,6 +120,76 @@ theorem DeadOk.append {a b c : Tree} {d1 d2 : List Nat} (e1 : TEv a b) (e2 : TEv
       | true => exact .inl ⟨⟨w, hl⟩, wb, hwb, hfb⟩
       | false => exact .inr ⟨⟨wb, hwb, hfb⟩, w'', hw'', hf⟩
 
+/-! ## the children whose reference a dying parent has dropped -/
+
+/-- Every dropped child was live and not yet closed; if it lives on it has lost exactly one reference and is closed. -/
+def DropOk (t t' : Tree) (x : Nat) (dropped : List Nat) : Prop :=
+  dropped.Nodup ∧ ∀ i ∈ dropped, x < i ∧ (∃ w, LiveW t i w ∧ w.isClosed = false) ∧
+    ∀ (w w' : Win), t.wins[i]? = some w → t'.wins[i]? = some w' → w'.freed = false →
+      (w'.refcount + 1 = w.refcount ∧ w'.isClosed = true)
+
+theorem DropOk.nil (t t' : Tree) (x : Nat) : DropOk t t' x [] :=
+  ⟨List.nodup_nil, by intro i hi; simp at hi⟩
+
+theorem TEv.win_back {a b : Tree} (e : TEv a b) {i : Nat} {wb : Win} (h : b.wins[i]? = some wb) :
+    ∃ wa, a.wins[i]? = some wa ∧ WEv wa wb := by
+  cases ha : a.wins[i]? with
+  | none =>
+    have hlt : ¬ i < a.wins.size := by
+      intro hlt
+      have := Array.getElem?_eq_getElem (xs := a.wins) hlt
+      rw [ha] at this; cases this
+    have : b.wins[i]? = none := Array.getElem?_eq_none (by rw [e.1]; exact Nat.le_of_not_lt hlt)
+    rw [h] at this; cases this
+  | some wa =>
+    obtain ⟨wb', hb', ev⟩ := e.2 i wa ha
+    rw [h] at hb'; cases hb'
+    exact ⟨wa, rfl, ev⟩
+
+theorem DropOk.append {a b c : Tree} {x : Nat} {d1 d2 : List Nat} (e1 : TEv a b) (e2 : TEv b c)
+    (h1 : DropOk a b x d1) (h2 : DropOk b c x d2) : DropOk a c x (d1 ++ d2) := by
+  refine ⟨?_, ?_⟩
+  · rw [List.nodup_append]
+    refine ⟨h1.1, h2.1, ?_⟩
+    intro i hi j hj hij
+    subst hij
+    obtain ⟨_, ⟨wa, hla, _⟩, hc1⟩ := h1.2 i hi
+    obtain ⟨_, ⟨wb, hlb, hnb⟩, _⟩ := h2.2 i hj
+    have := (hc1 wa wb hla.1 hlb.1 hlb.2).2
+    rw [hnb] at this; cases this
+  · intro i hi
+    rw [List.mem_append] at hi
+    rcases hi with hi | hi
+    · obtain ⟨hx, hex, hc1⟩ := h1.2 i hi
+      refine ⟨hx, hex, ?_⟩
+      intro w w'' hw hw'' hf''
+      obtain ⟨w', hw', ev2⟩ := e2.win_back hw''
+      have hf' : w'.freed = false := by
+        cases hf' : w'.freed with
+        | false => rfl
+        | true => rw [ev2.1 hf'] at hf''; cases hf''
+      obtain ⟨hr, hcl⟩ := hc1 w w' hw hw' hf'
+      rcases ev2.2.2.1 hf'' with h | ⟨_, hncl, _⟩
+      · exact ⟨by omega, ev2.2.2.2 hcl⟩
+      · rw [hcl] at hncl; cases hncl
+    · obtain ⟨hx, ⟨wb, hlb, hnb⟩, hc2⟩ := h2.2 i hi
+      obtain ⟨wa, hwa, ev1⟩ := e1.win_back hlb.1
+      have hfa : wa.freed = false := by
+        cases hfa : wa.freed with
+        | false => rfl
+        | true => have := ev1.1 hfa; rw [hlb.2] at this; cases this
+      have hna : wa.isClosed = false := by
+        cases hna : wa.isClosed with
+        | false => rfl
+        | true => have := ev1.2.2.2 hna; rw [hnb] at this; cases this
+      refine ⟨hx, ⟨wa, ⟨hwa, hfa⟩, hna⟩, ?_⟩
+      intro w w'' hw hw'' hf''
+      rw [hwa] at hw; cases hw
+      obtain ⟨hr, hcl⟩ := hc2 wb w'' hlb.1 hw'' hf''
+      rcases ev1.2.2.1 hlb.2 with h | ⟨_, _, hclb⟩
+      · exact ⟨by omega, hcl⟩
+      · rw [hnb] at hclb; cases hclb
+
 end Tickit.Life
 
 namespace Tickit.Life
@@ -281,28 +351,29 @@ open WinTree (Id Win Req Change Tree)
 def RCabove (t : Tree) (x : Nat) : Prop := ∀ (i : Nat) (w : Win), x < i → LiveW t i w → 1 ≤ w.refcount
 
 /-- What a cascade started at `x` leaves behind. -/
-structure Casc (t t' : Tree) (x : Nat) (xw : Win) (dead : List Nat) : Prop where
+structure Casc (t t' : Tree) (x : Nat) (xw : Win) (dead dropped : List Nat) : Prop where
   inv : TInv t'
   ev : TEv t t'
   freed : ∃ w', t'.wins[x]? = some w' ∧ w'.freed = true
   below : ∀ (i : Nat) (w : Win), i < x → t.wins[i]? = some w →
     (xw.parent ≠ some i ∧ t'.wins[i]? = some w) ∨ (xw.parent = some i ∧ t'.wins[i]? = some (unlinkedParent w x))
   dead : DeadOk t t' dead
+  drop : DropOk t t' x dropped
   req_sub : ∀ r ∈ t'.root.changes, r ∈ t.root.changes
   drag_sub : ∀ (s : Nat), t'.root.dragSource = some s → t.root.dragSource = some s
 
 /-- The induction hypothesis of the cascade: `tickit_window_destroy` with budget `fuel`. -/
 def DestroyIH (cfg : Cfg) (fuel : Nat) : Prop :=
   ∀ (t : Tree) (c : Nat) (cw : Win), TInv t → LiveW t c cw → t.wins.size + 1 ≤ fuel + c → RCabove t c →
-    ∃ t' dead, destroyT cfg fuel t c = .ok (t', dead) ∧ Casc t t' c cw dead
+    ∃ t' dead dropped, destroyT cfg fuel t c = .ok (t', dead, dropped) ∧ Casc t t' c cw dead dropped
 
 /-- One child of a dying window: closed, its reference dropped, destroyed if that was the last one. -/
 theorem destroy_child_step {cfg : Cfg} (h1 : cfg.closePurges = true) (h2 : cfg.dragForgottenOnClose = true)
     (h3 : cfg.destroyClosesChildren = true) {fuel : Nat} (IH : DestroyIH cfg fuel)
     {tk : Tree} (inv : TInv tk) {x c : Nat} {xk : Win} (hx : LiveW tk x xk) (hc : c ∈ xk.children)
-    (hrc : RCabove tk x) (hsize : tk.wins.size + 1 ≤ fuel + 1 + x) (deadk : List Nat) :
-    ∃ t2 dc, destroyStep cfg (unrefTWith (destroyT cfg fuel)) (tk, deadk) c = .ok (t2, deadk ++ dc) ∧
-      TInv t2 ∧ TEv tk t2 ∧ DeadOk tk t2 dc ∧ RCabove t2 x ∧
+    (hrc : RCabove tk x) (hsize : tk.wins.size + 1 ≤ fuel + 1 + x) (deadk dropk : List Nat) :
+    ∃ t2 dc dr, destroyStep cfg (unrefTWith (destroyT cfg fuel)) (tk, deadk, dropk) c = .ok (t2, deadk ++ dc, dropk ++ dr) ∧
+      TInv t2 ∧ TEv tk t2 ∧ DeadOk tk t2 dc ∧ DropOk tk t2 x dr ∧ RCabove t2 x ∧
       t2.wins[x]? = some (unlinkedParent xk c) ∧
       (∀ (i : Nat) (w : Win), i < x → tk.wins[i]? = some w → t2.wins[i]? = some w) ∧
       (∀ r ∈ t2.root.changes, r ∈ tk.root.changes) ∧
@@ -312,10 +383,10 @@ theorem destroy_child_step {cfg : Cfg} (h1 : cfg.closePurges = true) (h2 : cfg.d
   have hr1 : 1 ≤ cw.refcount := hrc c cw hxc hcl
   obtain ⟨t1, hclose, hl1, inv1', hl1', hsz1, hnc, hothers, hreq1, hdrag1⟩ := closeDec_ok h1 h2 inv hcl hcp hr1
   -- the computation up to the decrement
-  have hcomp : destroyStep cfg (unrefTWith (destroyT cfg fuel)) (tk, deadk) c =
+  have hcomp : destroyStep cfg (unrefTWith (destroyT cfg fuel)) (tk, deadk, dropk) c =
       (do let r ← (if cw.refcount - 1 = 0 then destroyT cfg fuel (WinTree.set t1 c (droppedChild cw)) c
-                   else pure (WinTree.set t1 c (droppedChild cw), []))
-          pure (r.1, deadk ++ r.2)) := by
+                   else pure (WinTree.set t1 c (droppedChild cw), [], []))
+          pure (r.1, deadk ++ r.2.1, dropk ++ (c :: r.2.2))) := by
     unfold destroyStep
     simp only [get_live hcl, bind_ok, h3, if_true, hclose]
     unfold unrefTWith
@@ -354,9 +425,38 @@ theorem destroy_child_step {cfg : Cfg} (h1 : cfg.closePurges = true) (h2 : cfg.d
         subst this
         rw [hr]
         exact hrc i w0 (by omega) ⟨htk, by rw [← hf]; exact hl.2⟩
-    obtain ⟨t2, dc, hd, C⟩ := IH _ c _ inv1' hl1' (by rw [hsz1]; omega) hrc1
+    obtain ⟨t2, dc, dr, hd, C⟩ := IH _ c _ inv1' hl1' (by rw [hsz1]; omega) hrc1
     have hpn : (droppedChild cw).parent = none := rfl
-    refine ⟨t2, dc, by rw [hcomp]; simp only [hz, if_true, hd, bind_ok, pure_ok], C.inv, ?_, ?_, ?_, ?_, ?_, ?_, ?_⟩
+    have hdrop : DropOk tk t2 x (c :: dr) := by
+      refine ⟨List.nodup_cons.2 ⟨fun hm => by have := (C.drop.2 c hm).1; omega, C.drop.1⟩, ?_⟩
+      intro i hi
+      simp only [List.mem_cons] at hi
+      rcases hi with rfl | hi
+      · refine ⟨hxc, ⟨cw, hcl, hnc⟩, ?_⟩
+        intro w w' _ hw' hf'
+        obtain ⟨w'', hw'', hf''⟩ := C.freed
+        rw [hw'] at hw''; cases hw''
+        rw [hf'] at hf''; cases hf''
+      · obtain ⟨hci, ⟨w1, hl1i, hn1⟩, hcond⟩ := C.drop.2 i hi
+        have hic : i ≠ c := by omega
+        cases htk : tk.wins[i]? with
+        | none =>
+          have hlt : ¬ i < tk.wins.size := by
+            intro hlt
+            have := Array.getElem?_eq_getElem (xs := tk.wins) hlt
+            rw [htk] at this; cases this
+          have := hl1i.lt
+          omega
+        | some w0 =>
+          obtain ⟨w1', hw1', hf, hr, hcl', _⟩ := hsame i w0 hic htk
+          have : w1' = w1 := by rw [hl1i.1] at hw1'; exact (Option.some.inj hw1').symm
+          subst this
+          refine ⟨by omega, ⟨w0, ⟨htk, by rw [← hf]; exact hl1i.2⟩, by rw [← hcl']; exact hn1⟩, ?_⟩
+          intro w w' hw hw' hf'
+          cases hw
+          obtain ⟨h1', h2'⟩ := hcond w1' w' hw1' hw' hf'
+          exact ⟨by omega, h2'⟩
+    refine ⟨t2, dc, c :: dr, by rw [hcomp]; simp only [hz, if_true, hd, bind_ok, pure_ok], C.inv, ?_, ?_, hdrop, ?_, ?_, ?_, ?_, ?_⟩
     · -- TEv tk t2
       refine ⟨C.ev.1.trans hsz1, ?_⟩
       intro i w hw
@@ -471,7 +571,18 @@ theorem destroy_child_step {cfg : Cfg} (h1 : cfg.closePurges = true) (h2 : cfg.d
     · intro s hs; exact hdrag1 s (C.drag_sub s hs)
   · -- the child survives: somebody else holds a reference
     have hge : 1 ≤ cw.refcount - 1 := by omega
-    refine ⟨WinTree.set t1 c (droppedChild cw), [], by rw [hcomp]; simp only [hz, if_false, pure_ok, bind_ok], inv1', ?_, ?_, ?_, hx1', ?_, hreq1, hdrag1⟩
+    have hdrop : DropOk tk (WinTree.set t1 c (droppedChild cw)) x [c] := by
+      refine ⟨by simp, ?_⟩
+      intro i hi
+      simp only [List.mem_singleton] at hi
+      subst hi
+      refine ⟨hxc, ⟨cw, hcl, hnc⟩, ?_⟩
+      intro w w' hw hw' _
+      have : w = cw := by rw [hcl.1] at hw; exact (Option.some.inj hw).symm
+      subst this
+      rw [hl1'.1] at hw'; cases hw'
+      exact ⟨by simp only [droppedChild]; omega, rfl⟩
+    refine ⟨WinTree.set t1 c (droppedChild cw), [], [c], by rw [hcomp]; simp only [hz, if_false, pure_ok, bind_ok], inv1', ?_, ?_, hdrop, ?_, hx1', ?_, hreq1, hdrag1⟩
     · refine ⟨hsz1, ?_⟩
       intro i w hw
       by_cases hic : i = c
@@ -526,10 +637,11 @@ open WinTree (Id Win Req Change Tree)
 /-- The children loop of `tickit_window_destroy`. -/
 theorem destroy_loop {cfg : Cfg} (h1 : cfg.closePurges = true) (h2 : cfg.dragForgottenOnClose = true)
     (h3 : cfg.destroyClosesChildren = true) {fuel : Nat} (IH : DestroyIH cfg fuel) (x : Nat) :
-    ∀ (cs : List Nat) (tk : Tree) (deadk : List Nat) (xk : Win),
+    ∀ (cs : List Nat) (tk : Tree) (deadk dropk : List Nat) (xk : Win),
       TInv tk → LiveW tk x xk → xk.children = cs → RCabove tk x → tk.wins.size + 1 ≤ fuel + 1 + x →
-      ∃ t' dead', cs.foldlM (destroyStep cfg (unrefTWith (destroyT cfg fuel))) (tk, deadk) = .ok (t', deadk ++ dead') ∧
-        TInv t' ∧ TEv tk t' ∧ DeadOk tk t' dead' ∧ RCabove t' x ∧
+      ∃ t' dead' drop', cs.foldlM (destroyStep cfg (unrefTWith (destroyT cfg fuel))) (tk, deadk, dropk) =
+          .ok (t', deadk ++ dead', dropk ++ drop') ∧
+        TInv t' ∧ TEv tk t' ∧ DeadOk tk t' dead' ∧ DropOk tk t' x drop' ∧ RCabove t' x ∧
         (∃ xk', LiveW t' x xk' ∧ xk'.children = [] ∧ xk'.parent = xk.parent ∧ xk'.isClosed = xk.isClosed ∧
           xk'.isRoot = xk.isRoot) ∧
         (∀ (i : Nat) (w : Win), i < x → tk.wins[i]? = some w → t'.wins[i]? = some w) ∧
@@ -538,26 +650,28 @@ theorem destroy_loop {cfg : Cfg} (h1 : cfg.closePurges = true) (h2 : cfg.dragFor
   intro cs
   induction cs with
   | nil =>
-    intro tk deadk xk inv hx hcs hrc _
-    refine ⟨tk, [], by simp [List.foldlM], inv, TEv.refl tk, DeadOk.nil (TEv.refl tk) (fun i w h => ⟨w, h⟩), hrc,
+    intro tk deadk dropk xk inv hx hcs hrc _
+    refine ⟨tk, [], [], by simp [List.foldlM], inv, TEv.refl tk, DeadOk.nil (TEv.refl tk) (fun i w h => ⟨w, h⟩),
+      DropOk.nil _ _ _, hrc,
       ⟨xk, hx, hcs, rfl, rfl, rfl⟩, fun _ _ _ h => h, fun _ h => h, fun _ h => h⟩
   | cons c rest ih =>
-    intro tk deadk xk inv hx hcs hrc hsize
+    intro tk deadk dropk xk inv hx hcs hrc hsize
     have hc : c ∈ xk.children := by rw [hcs]; simp
-    obtain ⟨t2, dc, hstep, inv2, ev2, dead2, hrc2, hx2, hbelow2, hreq2, hdrag2⟩ :=
-      destroy_child_step h1 h2 h3 IH inv hx hc hrc hsize deadk
+    obtain ⟨t2, dc, dr, hstep, inv2, ev2, dead2, drop2, hrc2, hx2, hbelow2, hreq2, hdrag2⟩ :=
+      destroy_child_step h1 h2 h3 IH inv hx hc hrc hsize deadk dropk
     have hx2l : LiveW t2 x (unlinkedParent xk c) := ⟨hx2, hx.2⟩
     have hnd := inv.nodup x xk hx
     have hrest : (unlinkedParent xk c).children = rest := by
       simp only [unlinkedParent, hcs]
       exact List.erase_cons_head c rest
-    obtain ⟨t', dead', hfold, inv', ev', deadok', hrc', ⟨xk', hxl', hch', hp', hcl', hr'⟩, hbelow', hreq', hdrag'⟩ :=
-      ih t2 (deadk ++ dc) (unlinkedParent xk c) inv2 hx2l hrest hrc2 (by rw [ev2.1]; exact hsize)
-    refine ⟨t', dc ++ dead', ?_, inv', ev2.trans ev', DeadOk.append ev2 ev' dead2 deadok', hrc',
+    obtain ⟨t', dead', drop', hfold, inv', ev', deadok', dropok', hrc', ⟨xk', hxl', hch', hp', hcl', hr'⟩, hbelow', hreq', hdrag'⟩ :=
+      ih t2 (deadk ++ dc) (dropk ++ dr) (unlinkedParent xk c) inv2 hx2l hrest hrc2 (by rw [ev2.1]; exact hsize)
+    refine ⟨t', dc ++ dead', dr ++ drop', ?_, inv', ev2.trans ev', DeadOk.append ev2 ev' dead2 deadok',
+      DropOk.append ev2 ev' drop2 dropok', hrc',
       ⟨xk', hxl', hch', hp', hcl', hr'⟩, ?_, fun r hr => hreq2 r (hreq' r hr), fun s hs => hdrag2 s (hdrag' s hs)⟩
     · rw [List.foldlM_cons, hstep]
       simp only [bind_ok]
-      rw [hfold, List.append_assoc]
+      rw [hfold, List.append_assoc, List.append_assoc]
     · intro i w hix hw
       exact hbelow' i w hix (hbelow2 i w hix hw)
 
@@ -587,8 +701,8 @@ theorem destroyT_ok {cfg : Cfg} (h1 : cfg.closePurges = true) (h2 : cfg.dragForg
     have := hl.lt; omega
   | succ fuel IH =>
     intro t x xw inv hl hsz hrc
-    obtain ⟨tL, deadL, hfold, invL, evL, deadokL, _, ⟨xL, hxL, hchL, hpL, hclL, hrL⟩, hbelowL, hreqL, hdragL⟩ :=
-      destroy_loop h1 h2 h3 IH x xw.children t [] xw inv hl rfl hrc (by omega)
+    obtain ⟨tL, deadL, dropL, hfold, invL, evL, deadokL, dropokL, _, ⟨xL, hxL, hchL, hpL, hclL, hrL⟩, hbelowL, hreqL, hdragL⟩ :=
+      destroy_loop h1 h2 h3 IH x xw.children t [] [] xw inv hl rfl hrc (by omega)
     -- purge (only when still linked), then close (only when not yet closed)
     have stepP : ∃ tP, purgeIfLinked cfg tL x xL = .ok tP ∧ tP.wins = tL.wins ∧ TInv tP ∧
         (∀ r ∈ tP.root.changes, r ∈ tL.root.changes) ∧ (∀ (s : Nat), tP.root.dragSource = some s → tL.root.dragSource = some s) := by
@@ -638,7 +752,19 @@ theorem destroyT_ok {cfg : Cfg} (h1 : cfg.closePurges = true) (h2 : cfg.dragForg
     obtain ⟨invR, hRw, hRroot, hreqR, hdragR⟩ := invR
     have hxR : LiveW (rootCleanupIf cfg tC xC) x xC := (live_of_wins hRw).1 hxC
     have invF := invR.free hxR hpC hchC hRroot
-    refine ⟨_, deadL ++ [x], ?_, invF, ?_, ?_, ?_, ?_, ?_, ?_⟩
+    have evF0 : TEv tL (WinTree.set (rootCleanupIf cfg tC xC) x { xC with freed := true }) := by
+      refine ⟨by rw [set_size]; rw [show (rootCleanupIf cfg tC xC).wins.size = tC.wins.size from by rw [hRw], hCsz, hPw], ?_⟩
+      intro i w hw
+      by_cases hix : i = x
+      · subst hix
+        have : w = xL := by rw [hxL.1] at hw; exact (Option.some.inj hw).symm
+        subst this
+        refine ⟨{ xC with freed := true }, set_get_self _ hxR.lt, ⟨fun _ => rfl, fun h => (by simp at h), fun h => (by simp at h), fun _ => hclC⟩⟩
+      · rw [set_get_ne _ (Ne.symm hix), hRw]
+        rcases hothersC i w hix (by rw [hPw]; exact hw) with ⟨_, h⟩ | ⟨_, h⟩
+        · exact ⟨w, h, WEv.refl w⟩
+        · exact ⟨_, h, wev_of_fields rfl rfl id⟩
+    refine ⟨_, deadL ++ [x], dropL, ?_, invF, ?_, ?_, ?_, ?_, ?_, ?_, ?_⟩
     · unfold destroyT destroyTWith
       simp only [get_live hl, bind_ok, hfold, List.nil_append, get_live hxL, hP, get_live hxP, hC, get_live hxC, pure_ok]
     · -- TEv
@@ -681,6 +807,8 @@ theorem destroyT_ok {cfg : Cfg} (h1 : cfg.closePurges = true) (h2 : cfg.dragForg
       rcases hothersC i w hix (by rw [hPw]; exact hw) with ⟨_, h⟩ | ⟨_, h⟩
       · exact ⟨w, h, rfl⟩
       · exact ⟨_, h, rfl⟩
+    · have := DropOk.append evL evF0 dropokL (DropOk.nil _ _ x)
+      simpa using this
     · intro r hr
       exact hreqL r (hreqP r (hreqC r (hreqR r hr)))
     · intro s hs
